@@ -66,10 +66,25 @@ func runC17McrewTimers(c *sim.Ctx, t *testing.T) {
 		handlers[payload] = h
 	}
 	plans := make([][]tmOp, nreq)
+	ctxIds := make([]string, nreq)
 	for r := range plans {
 		nops := 1 + c.Intn(5, "nops")
 		for i := 0; i < nops; i++ {
-			switch c.Intn(7, "op") {
+			switch c.Intn(8, "op") {
+			case 7:
+				// a timer made on behalf of a request whose context ends while the timer is
+				// pending (a little later, or just as it falls due): that stops the timer, as a
+				// cancel does - it may fire or not, and is not pending afterwards.  The id is this
+				// request's own, so the stop cannot be mistaken for one of another timer.
+				if ctxIds[r] == "" {
+					ctxIds[r] = fmt.Sprintf("x%d", r)
+					op := tmOp{kind: "addctx", id: ctxIds[r], d: tmDelays[c.Intn(len(tmDelays), "d")], payload: newPayload()}
+					wait := tmSleeps[c.Intn(len(tmSleeps), "sl")]
+					if c.Bool("cancel-when-due") && op.d < time.Hour {
+						wait = op.d
+					}
+					plans[r] = append(plans[r], op, tmOp{kind: "sleep", d: wait}, tmOp{kind: "cancelctx", id: ctxIds[r]})
+				}
 			case 6:
 				plans[r] = append(plans[r], tmOp{kind: "observe"})
 			case 0, 1, 2:
@@ -147,8 +162,18 @@ func runC17McrewTimers(c *sim.Ctx, t *testing.T) {
 		for r := range plans {
 			plan := plans[r]
 			s.Go(fmt.Sprintf("req%d", r), func(tk *sim.Task) {
+				var endRequest context.CancelFunc
 				for _, op := range plan {
 					switch op.kind {
+					case "addctx":
+						var rctx context.Context
+						rctx, endRequest = context.WithCancel(ctx)
+						lg.Add(sim.Ev{Kind: "add.inv", Id: op.id, Val: op.payload, N: int64(op.d)})
+						err := ts.Add(rctx, op.id, op.payload, op.d)
+						lg.Add(sim.Ev{Kind: "add.ret", Id: op.id, Val: op.payload, Err: errStr(err)})
+					case "cancelctx":
+						lg.Add(sim.Ev{Task: "ctx-" + op.id, Kind: "rem.inv", Id: op.id})
+						endRequest()
 					case "add":
 						lg.Add(sim.Ev{Kind: "add.inv", Id: op.id, Val: op.payload, N: int64(op.d)})
 						err := ts.Add(ctx, op.id, op.payload, op.d)
@@ -168,6 +193,12 @@ func runC17McrewTimers(c *sim.Ctx, t *testing.T) {
 		// the observer looks once more after every due time has passed
 		s.Go("observer", func(tk *sim.Task) {
 			sim.Sleep(s.Horizon - time.Minute)
+			for _, id := range ctxIds {
+				if id != "" {
+					// by now the stop has long taken effect (or found nothing to stop)
+					lg.Add(sim.Ev{Task: "ctx-" + id, Kind: "rem.ret", Id: id, Err: "?"})
+				}
+			}
 			observe()
 		})
 		s.Run()
